@@ -155,6 +155,9 @@ func (db *DB) collectGarbage() (collectedCount uint64, done bool, err error) {
 
 	currentCollectedCount := uint64(0)
 	recycledItems := make([]shed.Item, 0)
+	// candidates with a pinned root: nothing of them is deleted before the
+	// final section, where they are dropped again if touched in the meantime
+	pinnedRoots := make(map[string]struct{})
 
 	// without batchMu lock, call chunkinfo to remove chunks
 	for _, item := range candidates {
@@ -169,6 +172,7 @@ func (db *DB) collectGarbage() (collectedCount uint64, done bool, err error) {
 			return 0, false, err
 		}
 		if rootPinned {
+			pinnedRoots[addr.ByteString()] = struct{}{}
 			recycledItems = append(recycledItems, item)
 			continue
 		}
@@ -246,6 +250,11 @@ func (db *DB) collectGarbage() (collectedCount uint64, done bool, err error) {
 	}
 
 	for _, item := range recycledItems {
+		if _, ok := pinnedRoots[string(item.Address)]; ok && boson.NewAddress(item.Address).MemberOf(db.dirtyAddresses) {
+			// accessed since candidate selection: its entries were re-keyed,
+			// leave it for a later run
+			continue
+		}
 		// delete from retrieve, gc
 		// (the root chunk itself stays if it is pinned)
 		pinned, err := db.pinIndex.Has(item)
